@@ -354,6 +354,16 @@ impl Parser {
         });
 
         if let Some(collision) = &name_is_collision {
+            if collision.is_const() {
+                return Err(vec![new_err(
+                    name.unwrap().1,
+                    &input.user_data().get_source_file_name(),
+                    format!(
+                        "cannot reuse \"{}\" as a loop counter: it is a `const` variable",
+                        collision.name()
+                    ),
+                )]);
+            }
             if !collision.ty().unwrap().eq_complex(
                 &step_output_type,
                 &TypecheckFlags::<&ClassType>::classless(),
